@@ -129,6 +129,24 @@ func SubSeed(name string) uint64 {
 	return v >> 1
 }
 
+// SetActive replaces the set of active findings (replay mode: the set recorded in the case).
+func SetActive(ids []string) {
+	active = map[string]bool{}
+	for _, id := range ids {
+		active[id] = true
+	}
+}
+
+// ActiveList returns the sorted active ids.
+func ActiveList() []string {
+	l := []string{}
+	for id := range active {
+		l = append(l, id)
+	}
+	sort.Strings(l)
+	return l
+}
+
 // Active reports whether a known finding is open and was re-witnessed at the start of this run.
 func Active(id string) bool { return active[id] }
 
@@ -366,4 +384,44 @@ func Flush() {
 	}
 	b, _ := json.MarshalIndent(st, "", " ")
 	os.WriteFile(filepath.Join(E.Out, "stats.json"), b, 0o644)
+	mu.Unlock()
+	FlushCollected()
+	mu.Lock()
+}
+
+// ---- development aid: collect mode (VERIF_COLLECT=1) records failures in buckets instead of
+// stopping at the first one, so that many defect classes can be triaged from one run.
+
+type cbucket struct {
+	N    int
+	Case json.RawMessage
+	Msg  string
+}
+
+var (
+	Collecting = os.Getenv("VERIF_COLLECT") != ""
+	cbuckets   = map[string]*cbucket{}
+)
+
+func Collect(sig string, c any, msg string) {
+	b, _ := json.Marshal(c)
+	mu.Lock()
+	defer mu.Unlock()
+	k := cbuckets[sig]
+	if k == nil {
+		k = &cbucket{}
+		cbuckets[sig] = k
+	}
+	k.N++
+	if k.Case == nil || len(b) < len(k.Case) {
+		k.Case, k.Msg = b, msg
+	}
+}
+
+func FlushCollected() {
+	if !Collecting || E.Out == "" {
+		return
+	}
+	b, _ := json.MarshalIndent(cbuckets, "", " ")
+	os.WriteFile(filepath.Join(E.Out, "collected.json"), b, 0o644)
 }
